@@ -1,4 +1,5 @@
 """C11 — the random generator is HMAC_DRBG(SHA-256) over OS entropy, reseeded on schedule."""
+import os
 import re
 import vlib
 from vlib import hx
@@ -111,9 +112,69 @@ def case_random(r):
     return ops
 
 
+BIGLIM = (1 << 32) + (1 << 20)
+
+
+def big_ok():
+    """`bigread` of >= 2^32 bytes really touches a 4.3 GiB shared mapping: do not turn a small machine's OOM killer into a
+    reported violation"""
+    try:
+        for l in open("/proc/meminfo"):
+            if l.startswith("MemAvailable:"):
+                return int(l.split()[1]) >= 8 << 20          # kB
+    except Exception:
+        pass
+    return True
+
+
+def entgen(r, pieces_):
+    """the scripted OS answers a run of `pieces_` more generate calls can consume (one line each kind), plus one spare"""
+    return ["entgen 1 48 %d" % r.range(0, 1 << 30), "entgen %d 32 %d" % (pieces_ // INTERVAL + 2, r.range(0, 1 << 30))]
+
+
+def case_big(r, n, mode, before=None):
+    """ONE call for n bytes (`bigread`) from a state reached by `before` small calls"""
+    before = r.range(0, 3) if before is None else before
+    ops = entgen(r, (n - 1) // MAXLEN + 1 + before)
+    for _ in range(before):
+        ops.append("read %d" % r.choice([1, 1, 32, 33]))
+    ops.append("bigread %d %d %s" % (n, r.choice([0, 1, 33, 4096, 4097, 65536]), mode))
+    return ops
+
+
+def medium_cases(r):
+    """every run, cheap: one call of 2^24 + k bytes (257 pieces: the reseed after 256 generates falls inside the call)
+    against the chunked sequence (2.6 s under ASan; the compiled model needs 1.7 s per MiB, so it only makes the first
+    of the chunked calls: `cmp`), and one call of 2^20 + k bytes started 1..16 generates before the reseed, against the
+    chunked sequence AND the model (`full`), followed by ordinary calls"""
+    cases = []
+    if not os.environ.get("VERIF_NO_BIG"):
+        cases.append(case_big(r, (1 << 24) + r.range(1, 70000), "cmp"))
+    before = INTERVAL - r.range(1, 16)
+    c = case_big(r, (1 << 20) + r.choice([0, 1, 33, r.range(2, 65535)]), "full", before=before)
+    c += ["read %d" % r.choice([1, 33, MAXLEN + 1]), "read 0"]
+    cases.append(c)
+    return cases
+
+
+def gen_big(rng, tier, mult, ctx=None):
+    """component drbgbig -- thorough tier and failing-input search (mult >= 10) only: ONE crypto_entropy_read of 2^32 + k
+    bytes (k <= 2^20) against the same request made in 65537.. calls of 65536 bytes.  ~150 s without sanitizers
+    (the two ways run in two processes at the same time); ~430 s with ASan, which is why this component is built without."""
+    if os.environ.get("VERIF_NO_BIG") or not big_ok() or (tier == "quick" and mult < 10):
+        return []
+    if ctx is not None and getattr(ctx, "violations", None):
+        # an earlier component of this run (osent, drbg) has already reported a failing input: a change that breaks the
+        # ordinary cases breaks this one too (`first=` differs), and shrinking it costs minutes per attempt
+        return []
+    r = rng.fork("big")
+    k = r.choice([0, 1, MAXLEN, r.range(2, 1 << 20)])
+    return [case_big(r, min((1 << 32) + k, BIGLIM), "cmp")]
+
+
 def gen_drbg(rng, tier, mult):
     q = tier == "quick"
-    cases = []
+    cases = medium_cases(rng.fork("medium"))          # the long-running cases first (cases are dealt round-robin to the workers)
     plan = [("s", 60 if q else 1200, case_sizes),
             ("l", 4 if q else 60, lambda r: case_long(r)),
             ("lf", 6 if q else 90, lambda r: case_long(r, fail_at=r.range(1, 2))),
@@ -140,6 +201,20 @@ def classify(case, out):
         o = out[i] if i < len(out) else ""
         if t[0] == "entos":
             q += 1
+            continue
+        if t[0] == "entgen":
+            q += int(t[1])
+            tags.append("entgen:%s-byte answers" % t[2])
+            continue
+        if t[0] == "bigread":
+            n = int(t[1])
+            tags.append("bigread:one-call-of-%s-bytes%s" % (">=2^32" if n >= 1 << 32 else ">=2^24" if n >= 1 << 24 else ">=2^20" if n >= 1 << 20 else "<2^20",
+                                                            "-against-the-model" if t[3] == "full" else ""))
+            tags.append("bigread:" + (o.split(" ", 1)[0] if o else "no-answer"))
+            if t[3] == "full":
+                m = _ST.search(o)
+                if m:
+                    inst, q = int(m.group(2)), int(m.group(3))
             continue
         if t[0] == "ent":
             if t[1] == "FAIL":
@@ -332,6 +407,14 @@ BB = dict(bb_ok=True, bb_srcs=["crypto/crypto_entropy.c"], bb_fresh=True)
 
 
 def components(ctx):
+    comps = _components(ctx)
+    for c in comps:
+        if c.name == "drbgbig":
+            c.first_limit_min = 900     # the 10x search of the quick tier runs the 2^32 case too: 140 s on a quiet machine, not 300 s under load
+    return comps
+
+
+def _components(ctx):
     return [vlib.Component(
         "osent", "h_osent.c", ["util/entropy.c", "util/warnp.c"], ["osent"], gen_osent,
         nontrivial=lambda c: any(",c" in o or " c" in o for o in c),
@@ -343,12 +426,28 @@ def components(ctx):
         ldflags=["-Wl,--wrap=open,--wrap=read,--wrap=close"]),
       vlib.Component(
         "drbg", "h_drbg.c", SRCS, ["drbg"], gen_drbg,
-        nontrivial=lambda c: any(o.startswith("read") and o != "read 0" for o in c),
+        nontrivial=lambda c: any(o.startswith(("read", "bigread")) and o != "read 0" for o in c),
         rule="scripted OS entropy (48/32-byte answers, FAIL, wrong lengths, exhausted script) + read requests: lengths from "
              "{0,1,31,32,33,64,65535,65536,65537,131073}, 65536+-{31,32,33}, 2x/3x 65536 +-1, random; runs of 514..632 small calls "
              "crossing two reseed intervals; multi-piece calls straddling a reseed; OS failure at the instantiate call and at the "
-             "1st/2nd reseed, with retries; non-trivial = at least one read of >0 bytes; distinct by hash of the op list",
+             "1st/2nd reseed, with retries; every run: `bigread` = ONE call of 2^24 + k bytes (257 pieces, reseed inside the call) "
+             "made by a forked child into a sentinel-filled shared mapping ending at a PROT_NONE page, against the same request "
+             "made as calls of 65536 bytes (`same` = same return value, bytes, OS answers consumed, statics; theorem "
+             "C11.read_eq_chunks), and one of 2^20 + k bytes started 1..16 generates before the reseed, also against the model "
+             "(VERIF_NO_BIG=1: only the latter); non-trivial = at least one read of >0 bytes; distinct by hash of the op list",
         classify=classify, cpu=[], **BB),
+      vlib.Component(
+        "drbgbig", "h_drbg.c", SRCS, ["drbg"], lambda rng, tier, mult: gen_big(rng, tier, mult, ctx),
+        nontrivial=lambda c: any(o.startswith("bigread") for o in c),
+        rule="thorough tier and failing-input search (10x budget) only, not with VERIF_NO_BIG=1 or < 8 GiB available, not when an earlier "
+             "component of the run has already reported a failing input: ONE "
+             "crypto_entropy_read of 2^32 + k bytes (k <= 2^20; 65537+ pieces, 256 reseeds inside the call; OS answers from `entgen`) "
+             "made by a forked child into a 4.3 GiB sentinel-filled shared mapping, against the same request made at the same "
+             "time by the parent as calls of 65536 bytes (two checksums per piece, no second buffer): `same <n>` + the first "
+             "64 bytes (the model makes the first of the chunked calls; C11.read_eq_chunks / read_first_piece say the rest). "
+             "Built -O2 WITHOUT sanitizers (2^32 bytes of HMAC_DRBG output take ~140 s so, ~430 s under ASan; the buffer is "
+             "raw mmap memory ASan would not guard anyway: the guard page and the tail sentinel do)",
+        classify=classify, cpu=[], sanitize=False, opt="-O2", **BB),
       vlib.Component(
         "drbgos", "h_drbg.c", SRCS + ["util/entropy.c"], ["drbg"], gen_drbgos,
         nontrivial=lambda c: any(o.startswith("entos") for o in c) and any(o.startswith("read") and o != "read 0" for o in c),
@@ -362,6 +461,11 @@ def components(ctx):
 
 
 def check(ctx):
+    notes = []
+    if os.environ.get("VERIF_NO_BIG"):
+        notes.append("NOTE: VERIF_NO_BIG is set; the bigread cases of >= 2^24 bytes (one call against the chunked sequence) were not run")
+    elif not big_ok():
+        notes.append("NOTE: less than 8 GiB of memory available; the bigread case of >= 2^32 bytes (component drbgbig) was not run")
     return vlib.standard_check(
         ctx, MODULES, components(ctx),
         assumptions=["HMAC_SHA256_Init/Update/Final/Buf compute RFC 2104 HMAC-SHA256 of the concatenated input (that is C01; exercised here at L1 on every run)",
@@ -371,4 +475,5 @@ def check(ctx):
                      "RDRAND mixing (crypto_entropy_rdrand.c) is excluded by the property: harness built without CPUSUPPORT_X86_RDRAND",
                      "one process = one generator state (no fork/thread interaction modelled)"],
         trusted=["pmodel (compiled Lean model)", "tools/extractors/c11.py (literals of crypto_entropy.c)", "harness/h_drbg.c", "harness/h_osent.c", "harness/hfakeos.h (scripted open/read/close)",
-                 "gcc -O1 + ASan/UBSan build of crypto_entropy.c, sha256.c (portable path, no CPU extensions)"])
+                 "gcc -O1 + ASan/UBSan build of crypto_entropy.c, sha256.c (portable path, no CPU extensions); component drbgbig: gcc -O2 without sanitizers",
+                 "bigread: fork() gives the child the generator state and the queue of OS answers of the parent; two 64-bit checksums per 65536-byte piece stand for the bytes"] + notes)
